@@ -128,7 +128,7 @@ with encode_kvs (kt vt : ty) (kvs : kvals) {struct kvs} : list byte :=
   end.
 
 (* guard of finding C11 uint-5to7: the value contains a Go uint / int (compact) component whose
-   64-bit pattern needs 5, 6 or 7 bytes — encodeUint emits a big-mode length decodeUint rejects *)
+   64-bit pattern needs 5, 6 or 7 bytes (or a sequence / map of that many elements) — encodeUint emits a big-mode length decodeUint rejects *)
 Definition uint57 (n : N) : bool := (4294967296 <=? n) && (n <? 72057594037927936).
 Fixpoint has_uint57 (t : ty) (v : value) {struct v} : bool :=
   match v, t with
@@ -139,9 +139,9 @@ Fixpoint has_uint57 (t : ty) (v : value) {struct v} : bool :=
   | VErr v', TResult _ b => has_uint57 b v'
   | VEnum i v', TEnum alts => match alt_lookup alts i with Some t' => has_uint57 t' v' | None => false end
   | VList vs, TArray _ t' => has_uint57_all t' vs
-  | VList vs, TSlice t' => has_uint57_all t' vs
+  | VList vs, TSlice t' => uint57 (N.of_nat (vals_len vs)) || has_uint57_all t' vs
   | VList vs, TStruct fs => has_uint57_fields fs vs
-  | VMap kvs, TMap kt vt => has_uint57_kvs kt vt kvs
+  | VMap kvs, TMap kt vt => uint57 (N.of_nat (kvals_len kvs)) || has_uint57_kvs kt vt kvs
   | _, _ => false
   end
 with has_uint57_all (t : ty) (vs : vals) {struct vs} : bool :=
